@@ -59,6 +59,7 @@ def bitOf (ts : List String) : Bool := ts == ["1"]
 
 def step (st : DState) (line : String) : DState × String :=
   match line.trimAscii.toString.splitOn " " with
+  | "note" :: _ => (st, line.trimAscii.toString)      -- descriptive line (no model content): echoed
   | ["ei", c, p] =>
     match ints? [c, p] with
     | some [c, p] => (st, toString (emissionInterval c p))
